@@ -417,3 +417,40 @@ Proof.
     vm_compute in E. inversion E; subst. vm_compute. reflexivity.
 Qed.
 
+
+(* ------------------------------------------------------------------ *)
+(* P5: the heading of Relation.Join *)
+Lemma join_fixed_race_free : forall q nm N s, q_join_attrs_append_alias q = false ->
+  reachable (p_join q nm) N s -> ~ race (p_join q nm) idloc N s.
+Proof.
+  intros q nm N s Hq _ (t & u & x & y & w1 & w2 & _ & _ & _ & Ha & _).
+  unfold access, p_join in Ha. rewrite Hq in Ha. destruct (thr s t) as [p rg w]; simpl in Ha.
+  destr_pc p; simpl in Ha; discriminate.
+Qed.
+
+Lemma join_fixed_result : forall q nm N s t, q_join_attrs_append_alias q = false ->
+  reachable (p_join q nm) N s -> halted (p_join q nm) t s -> result s t = nm t.
+Proof.
+  intros q nm N s t Hq Hr. revert t.
+  assert (H : forall t, match pc (thr s t) with 3 => regs (thr s t) 0 = nm t | _ => True end).
+  { induction Hr as [|s s' Hr IH Hs]; [intro; exact I|].
+    destruct Hs as [s v ts' sh' Hv He]. intro t. simpl. destruct (Nat.eq_dec v t) as [->|Hne].
+    - rewrite upd_same. specialize (IH t). destruct (thr s t) as [p rg w].
+      unfold exec, p_join in He. rewrite Hq in He. simpl in *.
+      destr_pc p; simpl in He; exec_inv He; simpl; auto.
+    - rewrite upd_other by exact Hne. apply IH. }
+  intros t Hh. specialize (H t). unfold halted, result, p_join in *. rewrite Hq in Hh.
+  destruct (thr s t) as [p rg w]; simpl in *. destr_pc p; simpl in Hh; try discriminate Hh. exact H.
+Qed.
+
+Lemma join_quirk_racy : forall q nm, q_join_attrs_append_alias q = true ->
+  exists s, reachable (p_join q nm) 2 s /\ race (p_join q nm) idloc 2 s.
+Proof.
+  intros [a b c] nm Hq. simpl in Hq. subst c.
+  set (P := p_join {| q_where_err_capture_race := a; q_importcache_error_no_broadcast := b; q_join_attrs_append_alias := true |} nm).
+  destruct (run P init [0;1]) as [s|] eqn:E; [|vm_compute in E; discriminate].
+  exists s. split.
+  - eapply run_reachable; [apply r_init| |exact E]. repeat constructor.
+  - apply (raceb_race _ _ 2 s 0 1); [lia|lia|discriminate|].
+    vm_compute in E. inversion E; subst. vm_compute. reflexivity.
+Qed.
